@@ -18,18 +18,19 @@
                               case <-cancel: break } }         TakeCancel
                  close(buckets); wg.Wait(); return cause       Close, Wait
 
-   Fixed = FALSE is the code as it stands:
+   Fixed = FALSE (cfg.fixed) is the code before commit 77e226d ("Before" variant):
      * `break` inside `select` leaves the select only: the producer skips that bucket and goes on.  Once every
        worker has failed, nobody receives and the cancel channel runs dry: the producer blocks for ever.
      * `break` inside the inner `for` leaves the inner loop only: f is invoked AGAIN on the id that just
        failed (Recall); if that second call succeeds, err is overwritten with nil and the error is lost.
-   Fixed = TRUE is the protocol after fixes/C28-eachitem-labelled-break.diff (both breaks labelled). *)
+   Fixed = TRUE is the code as it stands, after fixes/C28-eachitem-labelled-break.diff (both breaks labelled:
+   `break feeding`, `break reading`). *)
 EXTENDS Integers, Sequences, FiniteSets, TLC, Json, StreamsBase
 CONSTANTS MaxG,       \* goroutine counts 1..MaxG
           SizeVecs,   \* set of bucket-size sequences, e.g. {<<1,1>>, <<2,1,0,1>>}; Len = number of buckets
           MaxFail,    \* largest number of failing items
           Modes,      \* subset of {"item", "once", "sticky"}
-          Variants,   \* which protocols: subset of {TRUE, FALSE} (cfg.fixed; FALSE: code as it stands, TRUE: after the fix)
+          Variants,   \* which protocols: subset of {TRUE, FALSE} (cfg.fixed; TRUE: code as it stands, FALSE: before the fix)
           JudgeAll    \* FALSE: the properties below speak about the repaired protocol only; TRUE: about every variant
 VARIABLES cfg,        \* the configuration (chosen in Init, never changes)
           pnext,      \* producer: next bucket to offer
